@@ -44,6 +44,22 @@ def gen(x):
                      r"if ?\( ?src_stack\.event_list\[dst_pos - 1\] \+ src_stack\.base_usage >= max_loop_stack ?\) loop_valid = false ?; "
                      r"auto param = dst\.second\.get_event\(dst_pos\)\.type ?;", fbody),
            "optimizer.cpp:find_match stack test of the folded period (loop_valid)")
+    # analyze_stack (repair of D28): the unused macro tracks (roots with id > 15) are only collected in the
+    # loop over the track map and marked (`base_usage = 100`) in a second loop, after ALL tracks have been
+    # analysed; nothing else sets a base usage in analyze_stack
+    asm = x.need(re.search(r"void\s+Optimizer::analyze_stack\s*\(\s*\)(.*?)\n\}", s, flags=re.S), "optimizer.cpp:analyze_stack")
+    abody = re.sub(r"\s+", " ", re.sub(r"#if 0.*?#endif", " ", asm.group(1), flags=re.S))
+    x.need(re.search(r"\{ ?stack_analyzer\.clear\(\) ?; std::vector<int> unused ?; "
+                     r"for ?\( ?auto ?&& ?track_it ?: ?song->get_track_map\(\) ?\) ?\{ ?"
+                     r"Stack_Analyzer ?& ?dest = stack_analyzer\[track_it\.first\] ?; "
+                     r"if ?\( ?! ?dest\.base_usage ?\) ?\{ ?"
+                     r"dest\.analyze_track\( ?\*song, track_it\.second, \*this, 0 ?\) ?; "
+                     r"if ?\( ?track_it\.first > (\d+) ?\) unused\.push_back\( ?track_it\.first ?\) ?; \} \} "
+                     r"for ?\( ?auto ?&& ?id ?: ?unused ?\) stack_analyzer\[id\]\.base_usage = (\d+) ?; *$", abody),
+           "optimizer.cpp:analyze_stack marks the unused macro tracks after the loop over all tracks")
+    am2 = re.search(r"track_it\.first > (\d+) ?\) unused.*base_usage = (\d+)", abody)
+    w.append("def opt_first_macro_above : Nat := %s" % am2.group(1))
+    w.append("def opt_unused_base : Nat := %s" % am2.group(2))
     m = x.need(re.search(r":\s*sub_id\((\d+)\)", s), "optimizer.cpp:sub_id initialiser")
     w.append("def opt_sub_id : Nat := %s" % m.group(1))
     m = x.need(re.search(r"min_score\((\d+)\)", s), "optimizer.cpp:min_score initialiser")
